@@ -82,7 +82,53 @@ on the END line (C06: `org fin ... fin end` added to the entry-point grid).
 Widening C08's surface variants for this round (a trailing comment on every
 line) exposed defect D23 of the unchanged tree.
 
-After these changes all 119 are reported. The table is generated from the last
+Fifth round: 17 more (one per property). This time the agents were told what
+the checks enumerate (core sizes, alphabets, bounds) and asked for the change a
+bounded enumeration would most plausibly miss: effects that need a scale, a
+history or a parameter value *between* the enumerated ones. Before they
+reported, the spaces were widened along the hints given to them (complete
+warriors of up to ten instructions on cores of 80..65536 cells in lock step,
+every form on 256/4096/65536-cell cores, a second configuration of the API
+search, operator chains, FOR counts 7..100, buffer-boundary sweeps, listing
+widths, mid-range CLI values). 3 were reported at once (C05, C06, C07); the
+other 14 each named a real blind spot, closed as a class rather than for the
+one input:
+
+* C01 - folding by a 32-bit reciprocal, wrong on 5627 core sizes in
+  46508..65535 only: the new **core-size sweep** (every size 4..70001, 48 probe
+  steps each, section 10).
+* C02 - an index kept by RunCycle across Reset: every small battle is now
+  followed by a **second round on the same simulator** under the same lock-step
+  comparison.
+* C04 - a panic for limits in [2M+3, 4M-5]: the configuration grid gained
+  **every read x write limit up to 4M+2** for M in {3,4,5,8} and the six
+  presets (nop256 has limits above its core size), and the step space a
+  limits-above-the-core space (invariants only).
+* C11 - limits ignored in ICWS88 mode: the step space is repeated under the
+  **other simulator modes**.
+* C12 - offsets just below 2^64 overflow when the reduction is dropped: a
+  **fourth offset spelling** (the largest multiple of M that fits).
+* C03 - labels whose upper-case form is a mnemonic (`ſub`, `dıv`): non-ASCII
+  label spellings; the lower-case analogue `dİv` exposed defect D24 of the
+  unchanged tree.
+* C08 - comment lines dropped from FOR bodies (`;assert`, `;name` inside a
+  body): a **FOR-versus-textual-unrolling differential** over bodies with
+  meaningful comment lines.
+* C09 - a lexer that takes a short read for the end of input: **every text
+  also goes through a reader that returns short reads**.
+* C10 - a 1 MiB line limit with the scanner's error ignored: **lines of
+  2^k-1, 2^k, 2^k+1 bytes up to 4 MiB** followed by valid and invalid lines
+  (this also required passing long witnesses to replay workers through files).
+* C13 - handles invalidated by the ninth AddWarrior: **directed histories with
+  4..65 and 300 warriors**.
+* C14 - AddWarrior normalising the caller's data in place when fields exceed
+  the core size: the isolation grid gained **data with fields beyond the core**.
+* C15 - the recorder's owner in 16 bits: **simulators holding 70000 warriors**.
+* C16 - a memo key with 25 bits per field: a **core of 2^26+3 cells** with
+  fields around the powers of two.
+* C17 - a result channel of 1024 entries: **-r 255 / 1025 / 4097 / 70000**.
+
+After these changes all 136 are reported. The table is generated from the last
 run of every seed against the current machinery. (Two of the agents also
 pointed out defects of the unchanged tree while reading: D20 and D21 of
 section 11.)
